@@ -2,7 +2,7 @@
    Property theorems only; the model is Bac.Net (no proofs), the proofs live in Bac.NetFacts.
    Local theorems hold for EVERY node state, adapter, and arriving frame of the model.  `Fwd` marks the copies made
    by the forwarding section of process_npdu (netservice.py:607-676), `Tx` every other frame a node emits. *)
-From Bac Require Import Base Net NetFacts NetTerm NetTerm2 NetReply NetOnce NetRoute NetArrive NetLocal NetBcast NetTree NetFlood NetRound NetCert.
+From Bac Require Import Base Net NetFacts NetTerm NetTerm2 NetReply NetOnce NetRoute NetArrive NetLocal NetBcast NetTree NetFlood NetRound NetCert NetLbc.
 Open Scope N_scope.
 
 (* each router hop lowers the hop count by exactly one, and keeps payload and message type *)
@@ -425,6 +425,20 @@ Theorem C06_loop_free_warm_is_tree_to : forall lns ns d lv up par,
 Proof. exact loop_free_warm_tree_to. Qed.
 Print Assumptions C06_loop_free_warm_is_tree_to.
 
+(* C06 local broadcast, in full and on EVERY internetwork (no tree needed): it is gone after one step with nothing
+   new in flight (it stays on its network), and the nodes handed the payload are exactly the other stations of
+   that network, each once *)
+Theorem C06_local_broadcast_once : forall w src ws s smac data,
+  internet_ok (lans w) (nodes w) -> queue w = [] ->
+  nth_error (nodes w) src = Some ws -> w_ports ws = [(s, smac)] -> station_shape ws -> apdu_ok data = true ->
+  let w0 := submit w src ALB data in
+  exists osn, queue (run 1 w0) = [] /\ (forall k', (1 <= k')%nat -> run k' w0 = run 1 w0) /\
+    trace (run 1 w0) = osn ++ trace w /\ NoDup (hearers osn) /\
+    forall who, In who (hearers osn) <->
+      (who <> src /\ exists wn m, nth_error (nodes w) who = Some wn /\ station_shape wn /\ w_ports wn = [(s, m)]).
+Proof. exact local_broadcast_once. Qed.
+Print Assumptions C06_local_broadcast_once.
+
 (* C06_reply_routable is FALSE of the code when the originator is an application on a router: router with ports
    (net 1, net 2), local adapter = net 2, broadcasts globally; the station on net 1 is shown the router's net-1
    address in local form; its reply to that address arrives on the non-local adapter and is handed to nobody. *)
@@ -783,6 +797,17 @@ Example C06_tree4_checkers :
   tree_tob (lans tree4) (nodes tree4) 4 lv4 up4 par4 = true /\
   tree_fromb (lans tree4) (nodes tree4) 1 lv1 up1 par1 = true.
 Proof. vm_compute. repeat split. Qed.
+
+Example C06_tree4_local_broadcast_once :
+  let w0 := submit tree4 5 ALB [16; 99; 4] in
+  exists osn, queue (run 1 w0) = [] /\ (forall k', (1 <= k')%nat -> run k' w0 = run 1 w0) /\
+    trace (run 1 w0) = osn ++ trace tree4 /\ NoDup (hearers osn) /\
+    forall who, In who (hearers osn) <->
+      (who <> 5%nat /\ exists wn m, nth_error (nodes tree4) who = Some wn /\ station_shape wn /\ w_ports wn = [(4, m)]).
+Proof.
+  eapply (local_broadcast_once tree4 5%nat _ 4 [1] [16; 99; 4] C06_tree4_internet_ok); try reflexivity.
+  unfold station_shape. cbn. do 3 eexists. repeat split; auto.
+Qed.
 
 Example C06_tree_unicast_example :
   let w := run 100 (submit tree4 2 (ARS 4 [2]) [16; 99; 1]) in
